@@ -681,6 +681,24 @@ class Interp:
     def aug_assign(self, st, frame):
         opname = OPS[type(st.op)]
         t = st.target
+        if isinstance(t, ast.Subscript) and not isinstance(t.slice, (ast.Slice, ast.Tuple)):
+            base = self.eval(t.value, frame)
+            idx = self.eval(t.slice, frame)
+            if isinstance(base, Vec) and base.kind == "ndarray" and isinstance(idx, Vec) and idx.elem == "bool":
+                # a[mask] op= x : elementwise on the selected positions, in place
+                rhs = self.eval(st.value, frame)
+                if isinstance(rhs, Vec):
+                    raise Unsupported("masked in-place update with a vector operand")
+                ctx = self.ctx
+                if not ctx.branch(zint(base.length) == zint(idx.length), "mask-length"):
+                    raise PyRaise("IndexError", "boolean index did not match indexed array")
+                if base.imap is not None:
+                    raise Unsupported("masked in-place update through a view")
+                old = snapshot(base)
+                msk = snapshot(idx)
+                base.items = None
+                base.buf.write(lambda k: ite_val(truth(ctx, msk(k)), ops.scalar_binop(ctx, opname, old(k), rhs, guard=False), old(k)))
+                return
         cur = self.eval(t, frame)
         rhs = self.eval(st.value, frame)
         # in-place semantics for ndarrays (and lists for +=)
